@@ -6,7 +6,7 @@ from .. import anchors as A
 from ..callgraph import get_callgraph
 from ..cfg import all_stmts
 from ..effects import DICT, stmt_calls, stmt_writes
-from ..model import AnalysisError, call_name, dotted, func_body_nodes, is_self_attr, short
+from ..model import AnalysisError, call_name, dotted, func_body_nodes, is_self_attr, parent_map, short
 from .c05 import lookup_path
 from .common import cfg_of, recv_name
 
@@ -409,7 +409,63 @@ def _more(name):
     return run
 
 
+
+def r11_build_leaves_the_guard_flag_as_found(ctx):
+    """The build does not leave the function refusing modification when it fails: a store to the flag the
+    modification guard tests, made by the build on its own receiver, is undone in a `finally` (or is itself in one).
+    Otherwise a build that fails between the store and its undoing leaves the flag raised, and the offending method
+    can never be unregistered."""
+    repo = ctx.repo
+    build = A.build_method(repo)
+    guard = A.guard_method(repo)
+    flags = {n.attr for n in ast.walk(guard.node) if is_self_attr(n, selfname=recv_name(guard))}
+    ctx.require(flags, f"{guard.key}: the guard tests no attribute")
+    ctx.touch(build, guard)
+    rv = recv_name(build)
+    pm = parent_map(build.node)
+    stores = []
+    for st in all_stmts(build.node):
+        if isinstance(st, (ast.Assign, ast.AugAssign, ast.AnnAssign)):
+            targets = st.targets if isinstance(st, ast.Assign) else [st.target]
+            for t in targets:
+                for x in ast.walk(t):
+                    if is_self_attr(x, selfname=rv) and x.attr in flags and isinstance(x.ctx, ast.Store):
+                        stores.append((st, x.attr))
+
+    def in_finally(st):
+        cur = st
+        while cur in pm:
+            p = pm[cur]
+            if isinstance(p, ast.Try) and any(cur is s_ for s_ in p.finalbody):
+                return True
+            cur = p
+        return False
+
+    def undone_after(st, attr):
+        """a later statement of the same block is a try whose finally stores the flag again"""
+        p = pm.get(st)
+        for fld in ("body", "orelse", "finalbody"):
+            blk = getattr(p, fld, None)
+            if isinstance(blk, list) and any(st is s_ for s_ in blk):
+                after = blk[[i for i, s_ in enumerate(blk) if s_ is st][0] + 1 :]
+                if not after:
+                    return True  # nothing runs between the store and the end of the block
+                nxt = after[0]
+                return isinstance(nxt, ast.Try) and any(is_self_attr(x, attr, selfname=rv) and isinstance(x.ctx, ast.Store) for f_ in nxt.finalbody for x in ast.walk(f_))
+        return False
+
+    bad = [(st, a) for st, a in stores if not in_finally(st) and not undone_after(st, a)]
+    ctx.ob(
+        f"{build.key}:guard-flag-as-found",
+        build.loc(bad[0][0]) if bad else build.loc(),
+        f"the build leaves the flag the modification guard tests ({', '.join(sorted(flags))}) as it found it on every exit: it does not store it on its own receiver, or undoes the store in a `finally`",
+        not bad,
+        (f"`{short(bad[0][0], 60)}` raises the flag for the duration of the build with nothing to lower it when the build fails: after a failed build {guard.name}() refuses every change, so the offending method can never be removed and the function never works again" if bad else ""),
+    )
+
+
 RULES = [
+    ("C18.R17", "P1", r11_build_leaves_the_guard_flag_as_found, "a failed build does not leave the function refusing modification"),
     ("C18.R1", "P1", r1, "publish last"),
     ("C18.R2", "P1", r2, "commit last"),
     ("C18.R4", "P1", r4_flag_never_unset, "the built flag is never lowered while the entry point is live"),
